@@ -2,6 +2,7 @@ package checks
 
 import (
 	"fmt"
+	"sort"
 	"strings"
 
 	"github.com/vedadiyan/genql"
@@ -47,6 +48,9 @@ type C20Case struct {
 	PreBuild bool `json:"prebuild,omitempty"`
 	// Big: register kb holds native int64 values beyond 2^53 (c20BigBase + v, v being the small number this
 	// case file shows in column b / in init): a register returns exactly what was stored
+	// Consts: every query is also given WithConstants with one constant per register name in use (and for
+	// `never`): constants and registers are separate name spaces - a register never set reads NULL
+	Consts  bool           `json:"consts,omitempty"`
 	Big     bool           `json:"big,omitempty"`
 	Init    map[string]any `json:"init"`
 	Queries []C20Query     `json:"queries"`
@@ -236,6 +240,7 @@ func genC20(t *rapid.T) any {
 			{"k1": "02134", "k2": "2134", "k3": "0x10", "never": "16"},
 		}).Draw(t, "nameset"))
 	}
+	c.Consts = rapid.IntRange(0, 3).Draw(t, "consts") == 0
 	c.PreBuild = rapid.IntRange(0, 2).Draw(t, "prebuild") == 0
 	for _, q := range c.Queries {
 		if q.Form != "" || q.Arm2 != nil {
@@ -245,6 +250,56 @@ func genC20(t *rapid.T) any {
 		}
 	}
 	return c
+}
+
+// names lists every register name the case mentions (written, read, preset), sorted.
+func (c *C20Case) names() []string {
+	seen := map[string]bool{}
+	var expr func(e *sq.E)
+	expr = func(e *sq.E) {
+		if e == nil {
+			return
+		}
+		if e.K == "call" && strings.EqualFold(e.S, "GETVAR") && len(e.A) == 1 && e.A[0].K == "str" {
+			seen[e.A[0].S] = true
+		}
+		for _, a := range e.A {
+			expr(a)
+		}
+	}
+	var query func(q *C20Query)
+	query = func(q *C20Query) {
+		for k := range q.Pre {
+			seen[k] = true
+		}
+		expr(q.Where)
+		for _, it := range q.Items {
+			if it.Key != "" {
+				seen[it.Key] = true
+			}
+			if it.Key2 != "" {
+				seen[it.Key2] = true
+			}
+			expr(it.Val)
+			expr(it.Val2)
+			expr(it.Cond)
+		}
+		if q.Arm2 != nil {
+			query(q.Arm2)
+		}
+	}
+	for k := range c.Init {
+		seen[k] = true
+	}
+	for i := range c.Queries {
+		query(&c.Queries[i])
+	}
+	out := make([]string, 0, len(seen))
+	for k := range seen {
+		out = append(out, k)
+	}
+	sort.Strings(out)
+	return out
 }
 
 // rename gives the registers of the case other names (kb keeps its name: the check maps its values).
@@ -358,6 +413,9 @@ func checkC20(c *C20Case) Result {
 	if c.Big {
 		res.Labels = append(res.Labels, "register-holding-int64-beyond-2^53")
 	}
+	if c.Consts {
+		res.Labels = append(res.Labels, "constants-named-like-the-registers")
+	}
 	// provenance of each register value: which (query,row) wrote it
 	type stamp struct{ q, r int }
 	writer := map[string]stamp{}
@@ -377,7 +435,15 @@ func checkC20(c *C20Case) Result {
 				}
 			}
 		}
-		built[i] = Build(map[string]any{"t": rows}, c.Queries[i].sql(), Opts{}, genql.WithVars(live))
+		extra := []genql.QueryOption{genql.WithVars(live)}
+		if c.Consts {
+			consts := map[string]any{}
+			for _, k := range c.names() {
+				consts[k] = "constant " + k
+			}
+			extra = append(extra, genql.WithConstants(consts))
+		}
+		built[i] = Build(map[string]any{"t": rows}, c.Queries[i].sql(), Opts{}, extra...)
 	}
 	if c.PreBuild {
 		for i := range c.Queries {
